@@ -20,7 +20,7 @@ From GTP Require Import C07_position_proofs.
 
 Definition viap_statement : Prop := forall s d,
   wf_schema s = true -> doc_types_proper d = true ->
-  distinct_fragments d = true -> distinct_operations d = true ->
+  distinct_fragments d = true ->
   negb (violated R_VariablesAreInputTypes s d) = true ->
   defaults_const d = true ->
   (run_alone R_VariablesInAllowedPosition s d <> [] <-> violated R_VariablesInAllowedPosition s d = true).
@@ -55,9 +55,9 @@ Definition side_ok (r : rule_id) (s : sdocument) (d : document) : bool :=
   match r with
   | R_PossibleFragmentSpreads | R_NoUnusedFragments | R_NoFragmentsCycle | R_SingleFieldSubscriptions =>
       distinct_fragments d
-  | R_NoUndefinedVariables | R_NoUnusedVariables => distinct_fragments d && distinct_operations d
+  | R_NoUndefinedVariables | R_NoUnusedVariables => distinct_fragments d
   | R_VariablesInAllowedPosition =>
-      distinct_fragments d && distinct_operations d && negb (violated R_VariablesAreInputTypes s d)
+      distinct_fragments d && negb (violated R_VariablesAreInputTypes s d)
   | R_ValuesOfCorrectType => negb (violated R_VariablesAreInputTypes s d)
   | _ => true
   end.
@@ -90,7 +90,8 @@ Proof.
   pose proof (filter_length_le (fun o => is_none (op_node_name o)) (operations_of d)). lia.
 Qed.
 
-(* not told apart => one of the two unconditional rules is violated *)
+(* not told apart => one of the two unconditional rules is violated (no side condition of a
+   rule any more: the variable rules tell operations apart by their index) *)
 Lemma not_distinct_operations d : distinct_operations d = false ->
   v_unique_operation_names d = true \/ v_lone_anonymous d = true.
 Proof.
@@ -114,18 +115,12 @@ Proof.
                exists r', unconditional r' = true /\ violated r' s d = true).
   { intro H. exists R_UniqueFragmentNames. split; [reflexivity|].
     cbn [violated]. unfold distinct_fragments in H. apply negb_false_iff in H. exact H. }
-  assert (HO : distinct_operations d = false ->
-               exists r', unconditional r' = true /\ violated r' s d = true).
-  { intro H. destruct (not_distinct_operations d H) as [H1|H1].
-    - exists R_UniqueOperationNames. split; [reflexivity|exact H1].
-    - exists R_LoneAnonymousOperation. split; [reflexivity|exact H1]. }
   assert (HV : negb (violated R_VariablesAreInputTypes s d) = false ->
                exists r', unconditional r' = true /\ violated r' s d = true).
   { intro H. exists R_VariablesAreInputTypes. split; [reflexivity|].
     apply negb_false_iff in H. exact H. }
   destruct r; cbn [side_ok]; intro H; try discriminate;
     destruct (distinct_fragments d); auto;
-    destruct (distinct_operations d); auto;
     destruct (negb (violated R_VariablesAreInputTypes s d)); auto; discriminate.
 Qed.
 
